@@ -260,6 +260,22 @@ def case_frames(L, c, res):
     res.check("compose", dC, dAC, s2, "A->B->C against A->C (library both)")
     res.check("compose", dC, eC, s2, "A->B->C against the closed formula of A->C")
     res.frame(L, "frame_recorded", x.frame_applied, TC, "after A->B->C")
+    # the payload is edited between two changes of frame (element assignment / in-place write to the data array): the second
+    # change acts on the EDITED coordinates - back to A and on to C
+    for target, Tt_, ft, tag in (("A", TA, fA, "A->B, edit, ->A"), ("C", TC, fC, "A->B, edit, ->C")):
+        for how in ("setitem", "data_inplace"):
+            e = L.mk(cls, v, c["A"], c["ctor"])
+            L.call("changeFrame(B)", e.changeFrame, fB)
+            edited = np.array(eB, float).reshape(6).copy()
+            if how == "setitem":
+                L.call("obj[4] = x", e.__setitem__, 4, 0.75 * (1.0 + nv))
+                edited[4] = 0.75 * (1.0 + nv)
+            else:
+                edited = edited[::-1].copy() + 0.5 * nv
+                L.call("obj.data[...] = x", e.data.__setitem__, Ellipsis, edited.reshape(e.data.shape))
+            L.call("changeFrame(%s)" % target, e.changeFrame, ft)
+            ne = float(np.linalg.norm(edited))
+            res.check("edited_between_changes", L.data(e), act(TB, Tt_, edited), s1 + ne * (1 + pB + _pn(Tt_)), tag + " (" + how + ")")
     # explicit old frame: the object was built without a frame (recorded: identity), the caller names its frame
     w = L.mk(cls, v, [0.0] * 6, c["ctor"])
     if cls == "Wrench":
